@@ -785,6 +785,16 @@ def miri_cmd(flags, scenario, threads, extra_features=()):
     return cmd, env
 
 
+MIRI_RATES = (0.1, 0.03, 0.01, 0.3)
+
+
+def miri_flags(ms):
+    """Schedule seed -> Miri flags. The preemption rate varies with the seed (swarm style): at 0.1 a
+    thread runs about ten basic blocks per slice, at 0.01 about a hundred, so that in some runs
+    a thread completes a whole encoding step while another one is parked in the middle of one."""
+    return "-Zmiri-seed=%d -Zmiri-preemption-rate=%s" % (ms, MIRI_RATES[ms % len(MIRI_RATES)])
+
+
 def run_miri(flags, scenario, threads, extra_features=()):
     cmd, env = miri_cmd(flags, scenario, threads, extra_features)
     p = subprocess.run(cmd, cwd=MIRI_DIR, env=env, stdout=subprocess.PIPE, stderr=subprocess.STDOUT, text=True)
@@ -795,14 +805,14 @@ def run_miri_seeds(nseeds, scenario, threads, extra_features=()):
     """One Miri process per schedule seed, up to `workers()` at a time (Miri's own many-seeds
     mode does not scale on this machine). Returns list of (seed, rc, output)."""
     # build once, serially, so that the parallel invocations find everything compiled
-    rc, out = run_miri("-Zmiri-seed=0 -Zmiri-preemption-rate=0.1", scenario, threads, extra_features)
+    rc, out = run_miri(miri_flags(0), scenario, threads, extra_features)
     results = [(0, rc, out)]
     pending = list(range(1, nseeds))
     running = []
     while pending or running:
         while pending and len(running) < workers():
             ms = pending.pop(0)
-            cmd, env = miri_cmd("-Zmiri-seed=%d -Zmiri-preemption-rate=0.1" % ms, scenario, threads, extra_features)
+            cmd, env = miri_cmd(miri_flags(ms), scenario, threads, extra_features)
             running.append((ms, subprocess.Popen(cmd, cwd=MIRI_DIR, env=env, stdout=subprocess.PIPE, stderr=subprocess.STDOUT, text=True)))
         ms, p = running.pop(0)
         out, _ = p.communicate()
@@ -815,7 +825,7 @@ def check_miri(prop, tier, vseed):
     the crypto-enabled code on top of the pure-Rust ring stub (sim/fakering)."""
     t0 = time.time()
     nseeds, scenarios = (16, 1) if tier == "quick" else (96, 3)
-    info = {"miri_seeds_per_scenario": nseeds, "scenarios": [], "schedules": 0, "preemption_rate": 0.1,
+    info = {"miri_seeds_per_scenario": nseeds, "scenarios": [], "schedules": 0, "preemption_rates_by_seed_mod_4": list(MIRI_RATES),
             "oracles": ["every thread's TBS and full DER equal the sequential reference", "returned parameters equal the input",
                         "shared issuer unchanged", "Miri data-race and UB detection"],
             "configurations": {"crypto-less": "real code only (rcgen, yasna, time, pem); pure-Rust remote signer",
@@ -845,10 +855,10 @@ def check_miri(prop, tier, vseed):
                 rel = os.path.join("replays", "%s-miri-%s-%d-%d.json" % (prop, config, scenario, ms))
                 with open(os.path.join(VERIF, rel), "w") as f:
                     json.dump({"property": prop, "kind": "miri", "configuration": config, "features": list(feats), "scenario_seed": scenario,
-                               "threads": threads, "miri_seed": ms, "miri_flags": "-Zmiri-seed=%d -Zmiri-preemption-rate=0.1" % ms,
+                               "threads": threads, "miri_seed": ms, "miri_flags": miri_flags(ms),
                                "violation": {"class": vclass, "detail": detail}}, f, indent=1)
                 # a second run of the same seed in a fresh process must fail the same way
-                rc2, out2 = run_miri("-Zmiri-seed=%d -Zmiri-preemption-rate=0.1" % ms, scenario, threads, feats)
+                rc2, out2 = run_miri(miri_flags(ms), scenario, threads, feats)
                 if rc2 == 0:
                     raise HarnessError("Miri seed %d failed once and passed on replay: scheduler not deterministic" % ms)
                 k_ = match_known(prop, vclass, detail, {})
